@@ -496,7 +496,11 @@ func genSimple(r *Rng) CfgRecipe {
 	case "FLaplace":
 		c.Ps = []float64{genAny(r), genPos(r)}
 	case "FNegBinomial":
+		// p = 1 is rejected by the constructor (guard `p >= 1.0`); the rejected document is a corpus case
 		c.Ps = []float64{genPos(r), genProb(r)}
+		if c.Ps[1] == 1 {
+			c.Ps[1] = 0.9999999999999999
+		}
 	case "FPowerLaw":
 		c.Ps = []float64{[]float64{1.5, 2, 3.25, 1.0000000000000002, 1e3}[r.Intn(5)], genPos(r)}
 	}
